@@ -27,7 +27,7 @@ DEFAULT_PROFILE = dict(
 
 PROFILES = {
     "core": {},
-    "fields": dict(p_nested_field_closure=0.4, p_multitype=0.4, p_box=0.25, w_struct=7, w_enum=2, w_alias=2, p_include=0.15),
+    "fields": dict(p_nullable_tail=0.25, p_nested_field_closure=0.4, p_multitype=0.4, p_box=0.25, w_struct=7, w_enum=2, w_alias=2, p_include=0.15),
     "types": dict(p_multitype=0.45, p_box=0.3, w_struct=7, w_enum=2, w_alias=2, p_include=0.2, p_keywords=0.35,
                   p_position=0.3, w_extern=1, nrules=(3, 8)),
     "unicode": dict(p_unicode=0.7, p_insens=0.2, w_char=3, w_string=3, p_ccheck=0.3, w_extern=1, p_position=0.4),
@@ -73,7 +73,9 @@ UNI_LITS = ["é", "ß", "€", "😀", "ab€", "é́", "Ωx", "K", "ü", "日
 ASCII_RANGES = [("a", "c"), ("a", "z"), ("0", "9"), ("x", "z"), ("A", "Z"), ("b", "b"), (" ", "~"), ("c", "a"), ("A", "z"), ("0", "z"), (" ", " "),
                 ("\t", "\r")]
 UNI_RANGES = [("\x7f", "\x80"), ("a", "é"), ("à", "ÿ"), ("Ā", "߿"), ("ࠀ", "￿"),
-              ("\U00010000", "\U0010ffff"), ("z", " "), ("😀", "😏"), ("\x00", "\x7f"), ("ÿ", "à")]
+              ("\U00010000", "\U0010ffff"), ("z", " "), ("😀", "😏"), ("\x00", "\x7f"), ("ÿ", "à"),
+              # ASCII lower bound, upper bound beyond ASCII / Latin-1 / the BMP (classes like "anything printable up to ...")
+              ("x", "\u074a"), ("]", "\U0010ffff"), (" ", "\u00ff"), ("A", "\u2003"), ("0", "\uffff"), ("#", "\u00e9")]
 CHECK_FNS = ["chk0", "chk1", "chk2", "chk3"]
 CCHECK_FNS = ["cchk0", "cchk1"]
 EXTERNS = [("ext_ident", None), ("ext_two", None), ("ext_num", ["vfrt", "vfu", "XNum"]), ("ext_cond", None),
@@ -120,6 +122,15 @@ class Gen:
                 check_wellformed(g)
                 if self.coin(self.p.get("p_lonely_include", 0.0)):
                     g2 = self.lonely_include(g)
+                    if g2 is not None:
+                        try:
+                            check_wellformed(g2)
+                            check_types(g2)
+                            g = g2
+                        except Invalid:
+                            pass
+                if self.coin(self.p.get("p_nullable_tail", 0.08)):
+                    g2 = self.nullable_tail(g)
                     if g2 is not None:
                         try:
                             check_wellformed(g2)
@@ -179,6 +190,34 @@ class Gen:
         alt.parts.insert(self.r.randint(0, len(alt.parts)), piece)
         g.rules.append(one)
         self.kinds["One"] = "struct"
+        return g
+
+    def nullable_tail(self, g):
+        """an optional at the very end of a rule whose body is a field over a rule that can match nothing
+        ( [tail:Trailer]   Trailer = {marks:Mark} ): at the end of the input the optional still matches"""
+        import copy
+        g = copy.deepcopy(g)
+        hosts = [r for r in g.rules if r.kind == "rule" and not r.has("string") and self.kinds.get(r.name) == "struct"]
+        if not hosts or g.rule("Ntail") is not None:
+            return None
+        host = self.r.choice(hosts)
+        chars = [r.name for r in g.rules if r.kind == "char"] + ["char"]
+        x = self.r.random()
+        if x < 0.5:
+            body = Cho([Seq([Clo(Cho([Seq([Lit("~"), Ref(self.r.choice(chars), "marks")])]))])])
+        elif x < 0.8:
+            body = Cho([Seq([Opt(Cho([Seq([Lit("~")])]))])])
+        else:
+            body = Cho([Seq([Eoi()])])
+        g.rules.append(Rule("Ntail", body, (["position"] if self.coin(0.3) else [])))
+        self.kinds["Ntail"] = "struct"
+        f = self.r.choice(self.fieldpool)
+        tail = Opt(Cho([Seq([Ref("Ntail", f)])])) if self.coin(0.7) else Opt(Cho([Seq([Lit(";"), Ref("Ntail", f)]), Seq([Ref("Ntail", f)])]))
+        alt = self.r.choice(host.body.alts)
+        if alt.parts and isinstance(alt.parts[-1], Eoi):
+            alt.parts.insert(len(alt.parts) - 1, tail)
+        else:
+            alt.parts.append(tail)
         return g
 
     def string_include(self, g):
@@ -408,6 +447,15 @@ class Gen:
 
     def char_rule(self, nm, i):
         parts = []
+        later = [m for m in self.names[i + 1:] if self.kinds[m] == "char"]
+        if later and self.coin(0.3):
+            # a class that is (almost) only another class: NameChar = Letter | '_'   (the inner class may carry checks)
+            parts = [("ref", self.r.choice(later))]
+            if self.coin(0.6):
+                parts.append(("lit", self.r.choice(ASCII_LITS)[0]))
+            if self.coin(0.3):
+                self.r.shuffle(parts)
+            return CharRule(nm, parts, [], [])
         for _ in range(self.r.randint(1, 3) if not self.coin(0.05) else self.r.randint(8, 12)):
             x = self.r.random()
             later_char = [m for m in self.names[i + 1:] if self.kinds[m] == "char"]
